@@ -20,7 +20,7 @@ import unicodedata
 import zoneinfo
 from fractions import Fraction
 
-from . import core
+from . import core, interp
 from .core import cstr, cZ, cN, cnat, cbool, clist, cflt, copt  # noqa: F401
 from .c11 import ref_compare, cv_coq, stable_sort
 
@@ -1032,6 +1032,7 @@ def run(tier):
     csv_stats = run_csv(chk, r, env, thorough)
     probes = run_probes(chk, env)
     csv_stats['zone_round_trips'] = run_csv_zones(chk)
+    csv_stats['container_truthiness_rows'] = run_container_truthiness(chk)
 
     # ---- correspondence
     corr = {'terms': 0, 'agree': 0, 'declined': 0}
@@ -1127,6 +1128,31 @@ def malformed_cases(r, n):
         k = r.randint(0, fns[f] + 1)
         out.append({'src': f'return {f}(' + ', '.join(r.choice(pool) for _ in range(k)) + ')\n', 'expect_null': False})
     return out
+
+
+def run_container_truthiness(chk):
+    """dataFilter keeps the rows whose expression is truthy BY BARESCRIPT RULES, also when the expression's value is a container: an object
+    (even an empty one), a non-empty array, a datetime, a function and a regex are true; an empty array, '', 0, null and false are not"""
+    metas = [('objectNew()', True), ("objectNew('k', 0)", True), ('arrayNew()', False), ('arrayNew(0)', True), ('null', False), ("''", False),
+             ("'0'", True), ('0', False), ('0.5', True), ('false', False), ('true', True), ('datetimeNew(1970, 1, 1)', True), ('systemType', True),
+             ("regexNew('')", True), ('jsonParse("{}")', True), ('jsonParse("[]")', False)]
+    lines = ['rows = arrayNew(' + ', '.join(f"objectNew('i', {i}, 'meta', {m})" for i, (m, _) in enumerate(metas)) + ')']
+    exprs = ['meta', 'i >= 0 && meta', 'meta || false', 'if(true, meta, 1)', '!(!meta)', 'vv && meta']
+    for j, e in enumerate(exprs):
+        lines.append(f"o{j} = arrayNew()")
+        lines.append(f"for row in dataFilter(rows, '{e}', objectNew('vv', objectNew())):")
+        lines.append(f"    arrayPush(o{j}, objectGet(row, 'i'))")
+        lines.append('endfor')
+    lines.append('return arrayNew(' + ', '.join(f'o{j}' for j in range(len(exprs))) + ')')
+    text = '\n'.join(lines) + '\n'
+    out = core.run_impl('run_script', [{'text': text, 'globals': {}, 'max': 0}], shards=1)[0]
+    keep = [float(i) for i, (_, t) in enumerate(metas) if t]
+    got = interp.plain_of_tree(out['res']) if 'res' in out else None
+    if got != [keep] * len(exprs):
+        chk.oracle_fail.append({'class': 'filter-keeps-rows-by-other-than-barescript-truthiness', 'source': text,
+                                'input': {'metas': [m for m, _ in metas], 'expressions': exprs}, 'expected': [keep] * len(exprs),
+                                'got': got if got is not None else out})
+    return len(metas) * len(exprs)
 
 
 def run_csv_zones(chk):
